@@ -132,7 +132,7 @@ def _case_eval(ev0, network, rec, node_i, elem_i, case):
         if isinstance(g_, Opq) and len(g_.k) == 2 and g_.k[0] == 'not': return ev.negate(membership(g_.k[1]))
         if isinstance(g_, Opq) and len(g_.k) == 3 and g_.k[0] == 'in' and isinstance(g_.k[1], Poly) and isinstance(g_.k[2], Poly):
             ma = g_.k[2].as_atom()
-            if isinstance(ma, tuple) and len(ma) == 3 and ma[0] == '.' and ma[2] == 'keys': ma = ma[1]
+            if isinstance(ma, tuple) and len(ma) == 3 and ma[0] == '.' and ma[2] in ('keys', 'mapping'): ma = ma[1]
             if ma == pn[1] or tkey(Poly.atom(ma)) == pn[1]: return ev.compare(ast.NotEq(), g_.k[1], zero)
         return g_
     guard = membership(guard)
@@ -145,6 +145,7 @@ def _case_eval(ev0, network, rec, node_i, elem_i, case):
         if c_ is not None: g = c_ != 0
     if g is False: return ('val', 0)
     v = refold_value(ev, val)
+    if Evaluator._enum_member(v) and v.f.get('_enum_mixin_') == 'int': v = v.f['_value_']          # an IntEnum member stored into the matrix is its number
     if g is not True: return ('undecided', f'guard {g!r:.80}')
     c = as_poly(v).real_const() if isinstance(v, (Poly, int, bool)) else None
     if c is None: return ('undecided', f'value {v!r:.80}')
@@ -248,6 +249,7 @@ def admittance_table(prog):
     out = {'site': f.site}
     for case in ('diag', 'off'):
         tot = Poly()
+        combo = []          # values stored at (l1, l2) and (l2, l1) for each UNORDERED pair of a combinations() generator
         for gens, guard, parts, val, aug in records(bt):
             if len(parts) != 2 or any(p[0] != 'map' for p in parts): return {'undecided': 'index form', 'site': f.site}
             Lr, Lc = parts[0][2], parts[1][2]
@@ -257,6 +259,12 @@ def admittance_table(prog):
             elif case == 'diag' and any(isinstance(g_, Opq) and len(g_.k) == 2 and g_.k[0] == 'permutations' for g_ in gens) \
                     and all(isinstance(L_.as_atom(), tuple) and L_.as_atom()[:1] == ('β',) for L_ in (Lr, Lc)):
                 continue                            # pairs of a permutations() generator sit at different positions: never on the diagonal (labels are unique)
+            elif any(isinstance(g_, Opq) and len(g_.k) == 2 and g_.k[0] == 'combinations' for g_ in gens) \
+                    and all(isinstance(L_.as_atom(), tuple) and L_.as_atom()[:1] == ('β',) for L_ in (Lr, Lc)):
+                if case == 'diag': continue         # likewise never on the diagonal
+                if guard is not True or not isinstance(val, Poly): return {'undecided': 'guarded store in a combinations loop', 'site': f.site}
+                combo.append((Lr, Lc, val)); out[case + ':labels'] = (Lr, Lc)
+                continue
             e2 = ev.fresh()
             e2.add_fact(Lr - Lc, '==0' if case == 'diag' else '!=0')
             g = e2.refold(guard) if isinstance(guard, Opq) else guard
@@ -266,6 +274,14 @@ def admittance_table(prog):
             if not isinstance(v, (Poly, int)): return {'undecided': f'value {v!r:.80}', 'site': f.site}
             tot = tot + as_poly(v)
             out[case + ':labels'] = (Lr, Lc)
+        if combo:
+            # every unordered pair is visited once and must fill BOTH (l1, l2) and (l2, l1) with one and the same value: the entry at (row, column)
+            # is that value (symmetric in the two labels or not is then decided by the caller on its arguments)
+            pos = {(repr(tkey(a_)), repr(tkey(b_))) for a_, b_, _ in combo}
+            l1_, l2_ = combo[0][0], combo[0][1]
+            if len(combo) != 2 or pos != {(repr(tkey(l1_)), repr(tkey(l2_))), (repr(tkey(l2_)), repr(tkey(l1_)))} or not same(combo[0][2], combo[1][2]):
+                return {'undecided': 'a combinations loop that does not mirror each pair', 'site': f.site}
+            tot = tot + combo[0][2]
         sg = tot.single()
         if sg is None or len(sg[0]) != 1 or sg[0][0][1] != 1: return {'undecided': f'{case} entry {tot!r:.120}', 'site': f.site}
         at = sg[0][0][0]
